@@ -19,7 +19,7 @@ RULE = ("seeded random expression trees (depth <= 5) over the documented grammar
         "(d/dt * x and x' notations); all must equal the independent AST evaluation (float64, cross-checked with 40-digit mpmath; "
         "ill-conditioned trees discarded); non-trivial = tree has >= 4 nodes; distinct = distinct tree hash")
 DECIDING = ['eval_node_values', 'generated_function_values', 'spellings_compared', 'index_expressions', 'ddt_notation', 'prime_notation',
-            'hostile_names', 'rewritten_variable_values', 'derived_label_neighbour_values', 'index_expressions_generated', 'literal_equations', 'shared_negated_sums', 'symbolic_power_values']
+            'hostile_names', 'rewritten_variable_values', 'derived_label_neighbour_values', 'index_expressions_generated', 'literal_equations', 'shared_negated_sums', 'respelled_repeats', 'symbolic_power_values']
 ASSUMPTIONS = ['sigmoid is the logistic function, maxi/mini are element-wise maximum/minimum', 'argument domains are kept safe by construction',
                'ill-conditioned expressions (float64 vs mpmath differ by more than 1e-11 relative) are discarded']
 CASE_TIMEOUT = 240
@@ -89,6 +89,23 @@ def gen_expr(rnd, names, depth, flags):
         if shape == 'zero_minus':
             return ('mul', ('sub', ('num', 0.0), S), ('add', other, S))
         return ('div', ('neg', S), ('add', ('num', 2.0), ('pow', S, 2)))
+    if depth >= 2 and rnd.random() < 0.05:
+        # the same quantity written in two ways whose canonical forms differ only in the TYPE of a coefficient
+        # ((2.0*v)**2 -> 4.0*v**2, (v + v)**2 -> 4*v**2), as factors / arguments of one operation
+        v_ = ('var', rnd.choice(names))
+        k_ = rnd.choice([2, 3])
+        A = ('mul', ('num', float(k_)), v_)
+        B = ('add', v_, v_) if k_ == 2 else ('add', ('add', v_, v_), v_)
+        flags['respelled_repeat'] = True
+        c_ = ('num', rnd.choice([2.0, 1.5, 3.0]))
+        shape = rnd.choice(['prod_of_sums', 'quotients', 'call_times', 'sum_of_squares'])
+        if shape == 'prod_of_sums':
+            return ('mul', ('add', c_, ('pow', A, 2)), ('add', c_, ('pow', B, 2)))
+        if shape == 'quotients':
+            return ('mul', ('div', gen_expr(rnd, names, depth - 2, flags), ('add', c_, ('pow', A, 2))), ('div', ('var', rnd.choice(names)), ('add', c_, ('pow', B, 2))))
+        if shape == 'call_times':
+            return ('mul', ('call', rnd.choice(['sin', 'cos', 'tanh']), ('add', c_, ('pow', A, 2))), ('add', c_, ('pow', B, 2)))
+        return ('mul', ('add', ('pow', A, 2), gen_expr(rnd, names, depth - 2, flags)), ('add', ('pow', B, 2), c_))
     r = rnd.random()
     if r < 0.22:
         return ('add', gen_expr(rnd, names, depth - 1, flags), gen_expr(rnd, names, depth - 1, flags))
@@ -309,6 +326,7 @@ def run_case(case, ctx):
                 flags.pop('nested', None)
                 flags.pop('literal_call', None)
                 flags.pop('shared_negated_sum', None)
+                flags.pop('respelled_repeat', None)
                 e = gen_expr(rnd, names, rnd.randint(2, 5), flags)
                 try:
                     nest = E.has_direct_nesting(e) or nesting_after_simplify(e)
@@ -334,6 +352,8 @@ def run_case(case, ctx):
                 continue
             if flags.get('shared_negated_sum'):
                 mech['shared_negated_sums'] = mech.get('shared_negated_sums', 0) + 1
+            if flags.get('respelled_repeat'):
+                mech['respelled_repeats'] = mech.get('respelled_repeats', 0) + 1
             if any(n in ('r_in0', 'm_in2', 'x_v1', 'x_v2', 'weight') for n in E.variables(e)):
                 mech['hostile_names'] = mech.get('hostile_names', 0) + 1
             sp = spellings(e, rnd)
